@@ -148,6 +148,7 @@ theorem C06_model_sound (D : CfgData) (fuel : Nat) (hq : (rdRunModel D fuel).ope
 variables 0 = xs, 1 = x; nodes 2 = args, 4 = `x = 1`, 9 = for header `xs`, 10 = `pass`, 11 = `return x`) -/
 
 def ztD : CfgData where
+  fnId := 1
   graph := { nodes := [2, 4, 9, 10, 11], edges := [(2, 4), (4, 9), (9, 10), (9, 11), (10, 9)] }
   entry := 2
   exits := [11]
